@@ -1,7 +1,7 @@
 ---- MODULE MC_JobDirs ----
 EXTENDS JobDirs
-cJobs == {"j1", "j2", "j3"}
-cLocsOf == [j \in cJobs |-> IF j = "j3" THEN {"l1", "l2"} ELSE {"l1"}]
-cDirs == {"a", "b", "c", "d", "e", "f", "g", "h", "p"}
-cPinned == [j \in cJobs |-> IF j = "j2" THEN <<"", "p", "">> ELSE IF j = "j3" THEN <<"", "p", "">> ELSE <<"", "", "">>]
+cJobs == {"j1", "j2"}
+cLocsOf == [j \in cJobs |-> IF j = "j2" THEN {"l1", "l2"} ELSE {"l1"}]
+cDirs == {"a", "b", "c", "d", "e", "f", "g", "p"}
+cPinned == [j \in cJobs |-> IF j = "j2" THEN <<"", "p", "">> ELSE <<"", "", "">>]
 ====
